@@ -952,6 +952,11 @@ func thresholdSweep(e *hk.Env) (calls, bad int) {
 						}
 					}
 				}
+				// every record Relay makes (REQ_BEG, REQ_END at Info; the panic record at Error), returning and panicking routes: relay.go
+				{
+					rc, _ := relaySweep(e, k, th, sh.name, l, ls, &c, &cs) // its violations are counted in relayViol (own VIOL budget)
+					calls += rc
+				}
 				for _, lv := range validLevels {
 					for _, en := range entries {
 						if !en.ok(lv) {
@@ -1251,6 +1256,9 @@ func run(e *hk.Env) error {
 	tcalls, tbad := thresholdSweep(e)
 	e.Stats["threshold_sweep_calls"] = tcalls
 	e.Stats["threshold_sweep_violating"] = tbad
+	e.Stats["relay_sweep_violating_requests"] = relayViol
+	e.Stats["relay_sweep_routes"] = len(relayRoutes)
+	e.Stats["relay_sweep_longest_panic_line"] = relayPanicLineMax
 	e.Stats["threshold_sweep_thresholds"] = sweepThresholds
 	e.Stats["seconds_by_scenario"] = durs
 	e.Stats["cases"] = scen + tcalls
